@@ -350,7 +350,7 @@ def r6_ok_means_probed(ctx):
     rid = "C13.R6"
     ctx.rule(rid, "find_uci and uci_to_pgn answer Ok only for a move they have made and found valid: every path to an Ok result passes Bitboard::make, then Bitboard::is_valid with a positive outcome (a fast path that accepts a pseudo-legal move unprobed lets pinned pieces and en-passant discoveries through)", floor=2)
     from ..cfg import Cfg
-    for name in ("find_uci", "uci_to_pgn"):
+    for name in ("find_uci", "uci_to_pgn", "make_uci"):
         f = ctx.fn(rid, BB + name)
         cfg, ex = Cfg(f), Exprs(f)
         oks = []
@@ -374,6 +374,30 @@ def r6_ok_means_probed(ctx):
                 if d[0] == "call" and d[1] == BB + "is_valid":
                     pos = t["targets"][0][1] if neg else t["otherwise"]
                     valid_edges.add((b, pos))
+        finds = {b for b in cfg.reach if f["blocks"][b]["term"]["k"] == "call" and f["blocks"][b]["term"]["callee"].get("key") == BB + "find_uci"}
+        if name == "make_uci" and oks and makes and (finds or valid_edges):
+            # make_uci may delegate the probe to find_uci: an Ok path is fine if it passed find_uci (whose Err is
+            # propagated) or crossed the positive outcome of is_valid itself
+            def reach_unprobed(target):
+                seen, work = set(), [0]
+                while work:
+                    x = work.pop()
+                    if x in seen or x in finds:
+                        continue
+                    seen.add(x)
+                    if x == target:
+                        return True
+                    for y in cfg.succ[x]:
+                        if f["blocks"][y]["cleanup"] or (x, y) in valid_edges:
+                            continue
+                        work.append(y)
+                return False
+            for b, line in oks:
+                unprobed = reach_unprobed(b)
+                ctx.ob(rid, "%s|ok-only-after-a-probe" % name, not unprobed,
+                       "" if not unprobed else "make_uci can answer Ok (and leave the move made) on a path that neither went through find_uci nor saw is_valid succeed after its own make: the move applied may be illegal (a probe skipped for 'harmless' pieces misses en-passant discoveries)",
+                       ctx.where(f, line))
+            continue
         if not oks or not makes or not valid_edges:
             ctx.lost(rid, "%s: Ok exits / make call / branch on is_valid" % name)
             continue
